@@ -34,6 +34,7 @@ fn table(id: &str) -> Option<(RunFn, CheckFn)> {
         "C10" => Some((props::c10::run, props::c10::check_case)),
         "C11" => Some((props::c11::run, props::c11::check_case)),
         "C12" => Some((props::c12::run, props::c12::check_case)),
+        "C13" => Some((props::c13::run, props::c13::check_case)),
         "C14" => Some((props::c14::run, props::c14::check_case)),
         "C15" => Some((props::c15::run, props::c15::check_case)),
         "C19" => Some((props::c19::run, props::c19::check_case)),
